@@ -3,11 +3,15 @@
   only; helper lemmas live in `Genshi/Lemmas/Xml*.lean`.
 
   OBLIGATIONS (checked against the axiom audit by the harness):
-    gen_tables_as_modelled extracted_codecs_ascii
+    gen_tables_as_modelled extracted_codecs_ascii default_pref_ok
+    xml_roundtrip_events output_wellformed_events
+    explicit_default_not_undeclared
     encode_roundtrip_text encode_roundtrip_attr charref_roundtrip
     attr_tab_lf_cr_not_recovered text_cr_not_recovered
 -/
 import Genshi.Lemmas.XmlRefs
+import Genshi.Lemmas.XmlFlatD
+import Genshi.Lemmas.XmlEmptyTag
 import Genshi.Model.XmlParser
 namespace Genshi.Props.C02
 open Genshi Genshi.Xml Genshi.Escape Genshi.Xml.Reader
@@ -30,6 +34,60 @@ theorem extracted_codecs_ascii :
   intro e he c hc
   simp only [Genshi.Gen.Xml.encodings, List.mem_cons, List.mem_nil_iff, or_false] at he
   rcases he with rfl | rfl | rfl | rfl <;> simp [inRanges] <;> omega
+
+/-- The preferred-prefix table a default `NamespaceFlattener()` holds (as extracted)
+    is one the theorems accept. -/
+theorem default_pref_ok : prefOK defaultPref = true := by decide
+
+/-- **xml_roundtrip, namespace stage** (all streams in `docOK`, any legal
+    preferred-prefix table).  What an XML reader resolves from the output of
+    `EmptyTagFilter` + `NamespaceFlattener` — qualified names through the `xmlns`
+    attributes in scope, attribute lists, character data, comments, PIs, CDATA
+    markers, declaration, doctype — is exactly the event sequence the stream
+    denotes; prefixes and declarations do not appear in the comparison.
+    `docOK` holds for what the parser produces from a well-formed document and
+    for builder streams (no namespace events); see `Model/XmlSpec.lean`. -/
+theorem xml_roundtrip_events (pref : List (Str × Str)) (hpref : prefOK pref = true) (s : Stream)
+    (hn : WellNested s) (h : docOK (emptyTag s) = true) :
+    resolve ((flatten pref (emptyTag s)).map normF) = some (canonS s) := by
+  rw [resolve_flatten pref hpref _ h, canonX_emptyTag s hn]
+
+/-- **output_wellformed, namespace stage**: on the same domain the flattened
+    events are namespace-well-formed — every prefix used is declared in scope,
+    no start tag carries two declarations of one prefix or two attributes with
+    one expanded name, start and end tags match lexically, there is one root
+    (`resolve` checks all of these and answers `none` otherwise). -/
+theorem output_wellformed_events (pref : List (Str × Str)) (hpref : prefOK pref = true) (s : Stream)
+    (h : docOK (emptyTag s) = true) :
+    (resolve ((flatten pref (emptyTag s)).map normF)).isSome = true := by
+  rw [resolve_flatten pref hpref _ h]; rfl
+
+/-- a document with re-bound prefixes, two prefixes for one URI, an undeclared
+    default namespace and an unbound attribute namespace is inside the hypothesis -/
+example : docOK (emptyTag
+    [.startNs [] ['u'], .startNs ['q'] ['u'], .start ⟨['u'], ['a']⟩ [(⟨['u'], ['x']⟩, ['1'])],
+     .startNs ['q'] ['v'], .startNs [] noneUri, .start ⟨[], ['b']⟩ [(⟨['w'], ['y']⟩, ['2'])],
+     .text ['t'] false, .end_ ⟨[], ['b']⟩, .endNs [], .endNs ['q'],
+     .start ⟨['v'], ['c']⟩ [], .end_ ⟨['v'], ['c']⟩,
+     .end_ ⟨['u'], ['a']⟩, .endNs ['q'], .endNs []]) = true := by decide
+
+/-- so is a builder stream: qualified names, no namespace events -/
+example : docOK (emptyTag
+    [.start ⟨['u'], ['a']⟩ [(⟨['v'], ['x']⟩, ['1'])], .start ⟨[], ['d']⟩ [], .end_ ⟨[], ['d']⟩,
+     .start ⟨['v'], ['e']⟩ [], .text ['t'] false, .end_ ⟨['v'], ['e']⟩, .end_ ⟨['u'], ['a']⟩]) = true := by decide
+
+/-- Outside the hypothesis, with witness: an element without namespace inside the
+    scope of an *explicit* non-empty default namespace declaration is left there
+    (the flattener writes `xmlns=""` only against default namespaces it made up
+    itself; template output relies on this), so it is read back in that
+    namespace.  The parser never produces such a stream. -/
+theorem explicit_default_not_undeclared :
+    let s : Stream := [.startNs [] ['u'], .start ⟨['u'], ['a']⟩ [], .start ⟨[], ['b']⟩ [],
+                       .end_ ⟨[], ['b']⟩, .end_ ⟨['u'], ['a']⟩, .endNs []]
+    docOK (emptyTag s) = false ∧
+    resolve ((flatten defaultPref (emptyTag s)).map normF) =
+      some [.start ⟨['u'], ['a']⟩ [], .start ⟨['u'], ['b']⟩ [], .end_ ⟨['u'], ['b']⟩, .end_ ⟨['u'], ['a']⟩] := by
+  refine ⟨by decide, by decide⟩
 
 /-- **encode_roundtrip (text).**  For every string of XML characters and every
     encoding (any set of representable characters that contains ASCII): escaping
